@@ -51,6 +51,10 @@ CHECKS = {
             "§6 C17",
             "unbounded proofs (induction over entry lists, registration orders, object-table walk) + extraction + differential correspondence",
             "PARTIAL: the assembly of the decoded records into the nested tree for arbitrary multi-table layouts (tree_decode) is not a theorem; it is covered by the executable model (kernel-evaluated example with competing tables, free entries, file objects) and the correspondence. Modelled, not verified: cstruct, struct.unpack, list.sort stability, strict utf-8 / utf-16-le decoding, dict semantics. Leaf values directly under the root (as_dict raises TypeError) and Python's recursion limit are outside the property."),
+    "C15": ("Lean 4 theorems over a model of the encrypted-VMX unlock path (KeySafe.from_text / _parse_key_locator / _split_list / _parse_crypto_dict / unquote, Phrase.unwrap, _decrypt_hmac, unseal_with_phrase, VMX.unlock_with_phrase) with the primitives as parameters: unlock_roundtrip (a file sealed by the writer unlocks to exactly its configuration, for every MAC of the table, any KDF/cipher/rounds/salt/IV/content, CBC-inverts-encrypt as a hypothesis), keysafe_roundtrip (from_text of a rendered key safe = the pairs), pkcs7_strip_roundtrip (every plaintext incl. last byte = pad length), decrypt_hmac_roundtrip, fail_closed + unlock_ok_iff (attr changes only after both stages verified), wrong_mac_is_error, mac_covers_plaintext, padding_authenticated / bad_padding_is_error / altered_byte_refused_or_mac_input_changes (decrypted text = plaintext ‖ k bytes of value k, MAC over that plaintext), unseal_authenticated, unwrap_is_function_of_locator, tables_total; tables and grammar literals re-extracted from the live module each run; independent sealer (pycryptodome/hashlib) x real code x model on all 18 combinations, wrong passphrases, single-byte alterations of every encrypted field, multi-pair key safes with shared phrase ids, files unlocked in sequence in one process",
+            "§6 C15",
+            "unbounded proofs (induction over the grammar / the locator list; round trips with primitive laws as hypotheses) + extraction + differential correspondence with fault enumeration",
+            "Primitives are modelled, not verified: PBKDF2, HMAC, AES-CBC, base64, int(), UTF-8 decoding and the .vmx dictionary syntax are parameters of the model, supplied per attempt as a table computed with the real libraries (detection of an altered MACed byte is HMAC's property). Finding D26 (padding not authenticated) was repaired in /repo 8052c1c; alterations reaching only padding are ordinary in-scope attempts (truth: refused)."),
     "C20": ("Lean 4 theorems visor_member_extracts_stored_bytes (every listed visor member with a recorded data offset extracts to file[offset, offset+size), offset = the little-endian word at header+496, for every file content / member count / order / placement, GNU long names included), visor_next_header_adjacent, plain_tar_unchanged (visor-aware listing = standard listing on archives without visor data offsets; induction over the iteration), vmtar_listing_terminates (fuel size/512+2 always suffices) over a model of VisorTarInfo.frombuf/_proc_member and the inherited CPython tarfile iteration (nts, nti incl. base-256, checksums, frombuf, _proc_builtin, _proc_gnulong, next, extractfile); slice positions/magic/struct formats in VisorTarInfo.frombuf re-extracted from the source on every run; independent archive writer; real code vs model vs construction truth (and vs tarfile.open for plain archives)",
             "§6 C20",
             "unbounded proof (induction over the member iteration) + extraction + differential correspondence",
